@@ -5,21 +5,27 @@
    representatives' rows with at most MaxGapCols gap columns.  hist records the merges, so that
    every final state is one complete behaviour that S2 forces the real align_multiple through
    (guide tree = merge tree, distance matrix making (a, b) the closest pair, align_optimal
-   answering with the recorded traces). *)
+   answering with the recorded traces).
+   objs: which inputs are one and the same Sequence object (ObjPatterns; only inputs of equal
+   content can be one object, so a shared object's positions carry the same tokens 10*objs[k] + p).
+   With Aliasing = FALSE every input is its own object. *)
 EXTENDS ProgressiveMsa, TLC
 
-CONSTANTS MaxSeqs, MaxLen, MaxGapCols, MaxTotal
+CONSTANTS MaxSeqs, MaxLen, MaxGapCols, MaxTotal, Aliasing
 
-VARIABLES lens, F, hist
-vars == <<lens, F, hist>>
+VARIABLES lens, objs, F, hist
+vars == <<lens, objs, F, hist>>
 
-InputsOf(l) == [k \in DOMAIN l |-> [p \in 1..l[k] |-> 10 * k + p]]
-Inputs == InputsOf(lens)
+InputsOf(l, o) == [k \in DOMAIN l |-> [p \in 1..l[k] |-> 10 * o[k] + p]]
+Inputs == InputsOf(lens, objs)
 
 Sum(l) == FoldLeft(LAMBDA a, x : a + x, 0, l)
 Init ==
-  /\ \E n \in 2..MaxSeqs : lens \in {l \in [1..n -> 1..MaxLen] : Sum(l) <= MaxTotal}
-  /\ F = {Leaf(k, InputsOf(lens)[k]) : k \in DOMAIN lens}
+  /\ \E n \in 2..MaxSeqs :
+       /\ lens \in {l \in [1..n -> 1..MaxLen] : Sum(l) <= MaxTotal}
+       /\ objs \in IF Aliasing THEN {o \in ObjPatterns(n) : \A k \in 1..n : lens[o[k]] = lens[k]}
+                   ELSE {NoSharing(n)}
+  /\ F = {Leaf(k, InputsOf(lens, objs)[k]) : k \in DOMAIN lens}
   /\ hist = <<>>
 
 Merge ==
@@ -29,7 +35,7 @@ Merge ==
        \E aln \in {t \in GlobalAlns(RowLen(g1), RowLen(g2)) : GapColumns(t) <= MaxGapCols} :
          /\ F' = (F \ {g1, g2}) \cup {MergeGroups(g1, g2, aln)}
          /\ hist' = Append(hist, [a |-> a, b |-> b, tr |-> aln])
-         /\ UNCHANGED lens
+         /\ UNCHANGED <<lens, objs>>
 
 Next == Merge
 Spec == Init /\ [][Next]_vars
@@ -56,6 +62,29 @@ InvFinal ==
        /\ Codes(A) = FinalRows(g)
        /\ PostAll(Post(Inputs, A, [k \in DOMAIN g.idx |-> g.idx[k] - 1],
                        [k \in DOMAIN g.idx |-> TreeLeaves(g.tree)[k] - 1]))
+\* object identity: the machine above works on values.  The code works on Sequence objects; with
+\* the leaf copy it computes the same rows for EVERY sharing pattern of the inputs, returns
+\* sequences equal to the inputs and leaves the caller's objects untouched.
+InvObjects ==
+  /\ Dom_Objs(Inputs, objs)
+  /\ Done => LET r == HeapRun(Inputs, objs, hist, TRUE) IN
+             /\ r.rows = FinalRows(Final)
+             /\ r.seqs = Inputs
+             /\ InputsUnchanged(Inputs, r.after)
+\* ... and what the copy is for: without it the same history is still right when no object is
+\* shared, and wrong (all-gap column / rows that do not spell the input / caller's object
+\* changed) when a gap goes into a group that holds one object twice
+ExampleHist == <<[a |-> 1, b |-> 2, tr |-> <<<<0, 0>>, <<1, 1>>>>],
+                 [a |-> 1, b |-> 3, tr |-> <<<<0, 0>>, <<Gap, 1>>, <<1, 2>>>>]>>
+ExampleIn(o) == InputsOf(<<2, 2, 3>>, o)
+ASSUME LET r == HeapRun(ExampleIn(<<1, 2, 3>>), <<1, 2, 3>>, ExampleHist, FALSE) IN
+       /\ r.rows = <<<<11, Gap, 12>>, <<21, Gap, 22>>, <<31, 32, 33>>>>
+       /\ r.rows = HeapRun(ExampleIn(<<1, 2, 3>>), <<1, 2, 3>>, ExampleHist, TRUE).rows
+       /\ r.after = ExampleIn(<<1, 2, 3>>)
+ASSUME LET r == HeapRun(ExampleIn(<<1, 1, 3>>), <<1, 1, 3>>, ExampleHist, TRUE) IN
+       r.rows = <<<<11, Gap, 12>>, <<11, Gap, 12>>, <<31, 32, 33>>>> /\ r.after = ExampleIn(<<1, 1, 3>>)
+ASSUME LET r == HeapRun(ExampleIn(<<1, 1, 3>>), <<1, 1, 3>>, ExampleHist, FALSE) IN
+       r.rows # <<<<11, Gap, 12>>, <<11, Gap, 12>>, <<31, 32, 33>>>> /\ r.after # ExampleIn(<<1, 1, 3>>)
 \* reordering by `order` itself (instead of its argsort) is a different function
 ASSUME ArgSort(<<2, 3, 1>>) = <<3, 1, 2>>
 ASSUME IsGlobalAln(<<<<0, Gap>>, <<1, 0>>, <<Gap, 1>>>>, 2, 2) /\ ~IsGlobalAln(<<<<0, 0>>, <<Gap, 1>>>>, 2, 2)
